@@ -9,6 +9,7 @@ import (
 	"fmt"
 	"io"
 	"log"
+	"os"
 	"sync"
 	"time"
 
@@ -23,6 +24,12 @@ import (
 func init() {
 	// the library logs "invalid packet" with the whole receive buffer; keep workers quiet
 	log.SetOutput(io.Discard)
+	if os.Getenv("VERIF_WORKER") != "" {
+		// the Unix file server prints rename diagnostics on stdout
+		if f, err := os.OpenFile(os.DevNull, os.O_WRONLY, 0); err == nil {
+			os.Stdout = f
+		}
+	}
 }
 
 type Config struct {
@@ -38,6 +45,7 @@ type Config struct {
 type Sess struct {
 	Cfg   Config
 	Srv   *go9p.Srv
+	Ufs   *go9p.Ufs // set instead of Ops when the implementation is the bundled Unix file server
 	Ops   *script.Ops
 	Log   *script.Log
 	Ctl   *sched.Ctl
@@ -71,6 +79,25 @@ func NewSess(cfg Config) *Sess {
 	}
 	s.Ctl = sched.New(s.Log, s.Ops.KnownConn)
 	s.Ctl.Trace = cfg.TracePoints
+	sched.Install(s.Ctl)
+	return s
+}
+
+// NewUfsSess starts the bundled Unix file server on root (in-process, scripted connections).
+func NewUfsSess(root string, dotu bool, msize uint32) *Sess {
+	s := &Sess{Cfg: Config{Dotu: dotu, Msize: msize}, Log: &script.Log{}}
+	u := new(go9p.Ufs)
+	u.Dotu = dotu
+	u.Msize = msize
+	u.Id = "ufs"
+	u.Root = root
+	if !u.Start(u) {
+		panic("srvlab: Ufs.Start failed")
+	}
+	s.Ufs = u
+	s.Srv = &u.Srv
+	s.Ctl = sched.New(s.Log, nil)
+	s.Ctl.Trace = false
 	sched.Install(s.Ctl)
 	return s
 }
@@ -109,14 +136,18 @@ func (s *Sess) Dial() *CConn {
 	cli, srv := memconn.Pipe(fmt.Sprintf("client%d", id), fmt.Sprintf("server%d", id))
 	c := &CConn{ID: id, S: s, Cli: cli, SrvE: srv, dotu: s.Cfg.Dotu, msize: s.Srv.Msize}
 	c.cond = sync.NewCond(&c.mu)
-	before := s.Ops.NConn()
-	s.Srv.NewConn(srv)
-	if s.Ops.NConn() != before+1 {
-		panic("srvlab: ConnOpened was not called synchronously")
+	if s.Ops == nil {
+		s.Srv.NewConn(srv)
+	} else {
+		before := s.Ops.NConn()
+		s.Srv.NewConn(srv)
+		if s.Ops.NConn() != before+1 {
+			panic("srvlab: ConnOpened was not called synchronously")
+		}
+		// ConnOpened numbered the connection in order of arrival
+		c.ID = s.Ops.NConn()
+		c.GC = s.Ops.ConnByID(c.ID)
 	}
-	// ConnOpened numbered the connection in order of arrival
-	c.ID = s.Ops.NConn()
-	c.GC = s.Ops.ConnByID(c.ID)
 	s.mu.Lock()
 	s.conns = append(s.conns, c)
 	s.mu.Unlock()
@@ -337,7 +368,7 @@ const W = 15 * time.Second // watchdog for events that normally take microsecond
 // Quiesce waits until the server holds no pending request on the connection.
 func (c *CConn) Quiesce(d time.Duration) bool {
 	deadline := time.Now().Add(d)
-	for {
+	for c.GC != nil {
 		p, _ := c.GC.VerifCounts()
 		if p == 0 {
 			return true
@@ -347,4 +378,5 @@ func (c *CConn) Quiesce(d time.Duration) bool {
 		}
 		time.Sleep(100 * time.Microsecond)
 	}
+	return true
 }
